@@ -967,3 +967,80 @@ class ValidateSensitiveHosts(_Leaf):
 
     def ensures(self, I, S):
         return [("C18.accepted-sensitive-hosts-are-valid-unique-positive", S.extra["spec"])]
+
+
+# ---- _parse_sensitive_hosts: validation + re-keying by the parsed address -----------------------------------------
+
+def sh_rekeyed(m, k):
+    """the address-keyed map holds exactly the first k entries of the section, each under its parsed address, with
+    the file's value"""
+    j, a, b = z3.Int("shp_j"), z3.Int("shp_a"), z3.Int("shp_b")
+    if isinstance(m, PyDict):
+        zero = z3.is_int_value(z3.simplify(k)) and z3.simplify(k).as_long() == 0
+        return [("map-holds-the-first-entries", z3.BoolVal(bool(zero and not m.d and not m.sym)))]
+    if not isinstance(m, SDict) or m.arity != 2:
+        return [("map-holds-the-first-entries", z3.BoolVal(False))]
+    key = lambda q: sh_key(q)
+    return [("entries-present-with-file-values", z3.ForAll([j], z3.Implies(z3.And(0 <= j, j < k), z3.And(
+                z3.Select(m.dom, B.EV_A(key(j)), B.EV_B(key(j))),
+                z3.Select(m.val, B.EV_A(key(j)), B.EV_B(key(j))) == sh_val(key(j)))))),
+            ("nothing-else", z3.ForAll([a, b], z3.Implies(z3.Select(m.dom, a, b), z3.Exists([j], z3.And(
+                0 <= j, j < k, B.EV_A(key(j)) == a, B.EV_B(key(j)) == b)))))]
+
+
+@loop_contract
+class ParseSensitiveLoop(LoopContract):
+    qualname = LQ + "_parse_sensitive_hosts"
+    ordinal = 0
+    tags = ("C17",)
+
+    def snapshot(self, I, fr, seq):
+        return {"self": fr.locals["self"]}
+
+    def havoc(self, I, fr, entry, seq):
+        A = z3.ArraySort
+        entry["self"].fields["sensitive_hosts"] = SDict(2, "real", I.ctx.fresh("sens_dom", A(I_, I_, B_)),
+                                                        I.ctx.fresh("sens_val", A(I_, I_, R_)), fresh=True, label="sensitive_hosts")
+        for v in loop_assigned(self.st):
+            fr.locals.pop(v, None)
+
+    def inv(self, I, fr, entry, seq, k):
+        return sh_rekeyed(entry["self"].fields.get("sensitive_hosts"), k)
+
+
+@contract
+class ParseSensitiveHosts(Contract):
+    """the sensitive_hosts section of any size: after validation the loader holds it re-keyed by the parsed address
+    tuples, with the file's values (what Scenario / Network / the goal test read)"""
+    qualname = LQ + "_parse_sensitive_hosts"
+    callable_by_contract = False
+    bounded = False
+    tags = {"": ("C17",)}
+
+    def setup(self, I, variant):
+        from pyvc.values import SymDict
+        nS, n, nh = z3.Int("doc_nS"), z3.Int("doc_n_sensitive"), z3.Int("doc_num_hosts")
+        j, i2 = z3.Int("hs_j"), z3.Int("hs_i")
+        I.ctx.assume(z3.And(nS >= 2, n >= 0, nh >= 1, z3.ForAll([j], doc_size(j) >= 0)))
+        I.ctx.assume(z3.ForAll([j, i2], z3.Implies(z3.And(0 <= j, j < i2, i2 < n), sh_key(j) != sh_key(i2))))
+        B.addr_axioms(I)
+        I.ext_state.update(sh_nS=nS, sh_n=n)
+        keys = SymSeq(n, lambda q: SymV(sh_key(ival(q)), "name"), "sensitive_hosts.keys")
+        sh = SymDict(lambda k: z3.BoolVal(True), lambda k: SymV(sh_val(nameval(k)), "real", pytag=sh_vtag(nameval(k))),
+                     keys=keys, label="sensitive_hosts")
+        lo = loader_obj(I, subnets=subnets_seq(nS), num_hosts=SymV(nh, "int"),
+                        yaml_dict=PyDict({"sensitive_hosts": sh}, fresh=False))
+        S = Scope()
+        S.extra.update(n=n)
+        S.a = {"self": lo}
+        S.call_args = ([lo], {})
+        return S
+
+    def modifies(self, I, S):
+        return [S.a["self"]]
+
+    def allowed_exception(self, I, S, exc):
+        return True            # an invalid section is rejected by the validator (its own contract says exactly when)
+
+    def ensures(self, I, S):
+        return [("C17.sensitive-hosts-" + l, t) for l, t in sh_rekeyed(S.a["self"].fields.get("sensitive_hosts"), S.extra["n"])]
